@@ -148,6 +148,7 @@ func runC01(r *Run) {
 	c01Creator(r, a)
 	c01Dedup(r, a)
 	c01Fitness(r)
+	c01CleanupAlways(r)
 }
 
 // ---------------------------------------------------------------------------------------------
